@@ -32,8 +32,9 @@ func connPair() (net.Conn, net.Conn) {
 
 // rawPeer is the client end of a connection to a real p9.Server.
 type rawPeer struct {
-	c    net.Conn
-	done chan struct{} // closed when Server.Handle returns
+	armed bool
+	c     net.Conn
+	done  chan struct{} // closed when Server.Handle returns
 }
 
 func newServerPeer(srv *p9.Server) *rawPeer {
